@@ -25,7 +25,7 @@ var R = hx.NewRecorder("C15", "cases = (endpoint kind: GMSSL client | GMSSL-only
 	"oracle = Handshake() returns (quiescence of the in-memory transport turns waiting into EOF; a read-after-EOF counter catches spinning), returns an error for every true deviation, HandshakeComplete stays false, no panic; legal variations (fragmented or coalesced messages, unknown ticket) must still succeed; non-trivial = deviation applied after at least one valid message or in the first message; distinct by hash of the plan")
 
 func TestMain(m *testing.M) {
-	R.Require("junk_certificate_verify", "jcv_vers:300", "ecdhe_ske", "hello_ext_sweep", "dev:big_record", "replay_deep:gmclient", "replay_deep:tlsclient", "replay_deep:gmserver", "replay_deep:tlsserver", "replay_deep:autoserver", "replay_control", "replay:omit_msg", "replay:hello_ext", "replay:swap_msgs", "hello_vector_lengths", "dev:cke_ciphertext_byte", "dev:cert_list", "serverhello_version_sweep", "tls_resumption_deviation", "dev:inner_len", "dev:trailing", "dev:alert_flood", "inner_length_sweep", "peer_pressed_on_after_alert", "endpoint:gmclient", "endpoint:gmserver", "endpoint:autoserver", "endpoint:tlsserver", "endpoint:tlsclient", "vers_sweep_done", "dev:omit", "dev:repeat", "dev:retype", "dev:reorder", "dev:truncate", "dev:len_field", "dev:split", "dev:coalesce",
+	R.Require("junk_certificate_verify", "jcv_vers:300", "ecdhe_ske", "hello_ext_sweep", "dev:big_record", "replay_deep:gmclient", "replay_deep:tlsclient", "replay_deep:gmserver", "replay_deep:tlsserver", "replay_deep:autoserver", "replay_control", "replay:omit_msg", "replay:hello_ext", "replay:swap_msgs", "hello_vector_lengths", "dev:cke_ciphertext_byte", "dev:cert_list", "short_messages_after_hello", "serverhello_version_sweep", "tls_resumption_deviation", "dev:inner_len", "dev:trailing", "dev:alert_flood", "inner_length_sweep", "peer_pressed_on_after_alert", "endpoint:gmclient", "endpoint:gmserver", "endpoint:autoserver", "endpoint:tlsserver", "endpoint:tlsclient", "vers_sweep_done", "dev:omit", "dev:repeat", "dev:retype", "dev:reorder", "dev:truncate", "dev:len_field", "dev:split", "dev:coalesce",
 		"dev:oversize", "dev:ccs_early", "dev:appdata_early", "dev:alert_fatal", "dev:unknown_record", "dev:close", "dev:record_overflow", "replay_perturbed", "legal_must_succeed", "cke_1byte", "hostile_suites")
 	for d := 0; d <= 5; d++ {
 		R.Require(fmt.Sprintf("depth:%d", d))
@@ -911,6 +911,11 @@ func record(kind string) *recorded {
 			cc.CipherSuites, sc.CipherSuites = []uint16{0x009c, 0x002f}, []uint16{0x009c, 0x002f}
 			cc.NextProtos, sc.NextProtos = nil, nil
 		}
+		if kind == "tlsrsa2f" {
+			// TLS_RSA_WITH_AES_128_CBC_SHA: defined for every protocol version, so the suite never decides a version question
+			cc.CipherSuites, sc.CipherSuites = []uint16{0x002f}, []uint16{0x002f}
+			cc.NextProtos, sc.NextProtos = nil, nil
+		}
 	}
 	r := tlsx.Run(cc, sc, tlsx.Script{ClientSend: []byte("ping"), ServerSend: []byte("pong")})
 	if r.Client.HSErr != nil || r.Server.HSErr != nil {
@@ -1216,6 +1221,10 @@ func replayAgainstW(ep string, stream []byte, seed string) (hsErr error, pn *hx.
 		tc := tlsx.TLSClient(p, seed)
 		tc.CipherSuites = []uint16{0x009c, 0x002f}
 		conn, peerW = gmtls.Client(cw, tc), sw
+	case "tlsclient_rsa2f":
+		tc := tlsx.TLSClient(p, seed)
+		tc.CipherSuites = []uint16{0x002f}
+		conn, peerW = gmtls.Client(cw, tc), sw
 	case "tlsserver_rsa":
 		ts := tlsx.TLSServer(p, p.RSASrv, seed)
 		ts.CipherSuites = []uint16{0x009c, 0x002f}
@@ -1252,6 +1261,55 @@ func replayAgainstW(ep string, stream []byte, seed string) (hsErr error, pn *hx.
 	return hsErr, pn, conn.ConnectionState().HandshakeComplete, wrote
 }
 
+// Right behind the peer's hello (the version is negotiated by then, so version-dependent message layouts are in force):
+// one handshake message of every type 0..25, 67, 254, 255 with a body of 0..6 bytes. Nothing of that is a complete,
+// well-placed message: the endpoint answers with an error - it does not panic in the message parser, which runs before
+// the state machine decides whether the type was expected.
+func TestC15_ShortMessagesAfterHello(t *testing.T) {
+	types := []byte{67, 254, 255}
+	for i := 0; i <= 25; i++ {
+		types = append(types, byte(i))
+	}
+	var n int64
+	for _, ep := range []string{"tlsserver", "autoserver_tls", "tlsserver_rsa", "gmserver", "autoserver", "tlsclient", "tlsclient_rsa", "gmclient"} {
+		rec := record(kindOf(ep))
+		stream := rec.c2s
+		if isClientEP(ep) {
+			stream = rec.s2c
+		}
+		first := wire.SplitRecords(stream)[0]
+		hl := 4 + (int(first[6])<<16 | int(first[7])<<8 | int(first[8]))
+		hello := append([]byte{}, first[:5+hl]...) // the record cut down to the hello alone
+		hello[3], hello[4] = byte(hl>>8), byte(hl)
+		for _, typ := range types {
+			for l := 0; l <= 6; l++ {
+				for _, fill := range []byte{0x00, 0x04, 0xff} {
+					if !hx.Thorough() && (int(typ)+l+int(fill))%2 == 1 {
+						continue // quick: half of the grid
+					}
+					body := bytes.Repeat([]byte{fill}, l)
+					if fill == 0x04 && l >= 2 {
+						body[1] = 0x03 // looks like a SignatureAndHashAlgorithm
+					}
+					msg := append([]byte{typ, 0, 0, byte(l)}, body...)
+					out := append(append([]byte{}, hello...), 22, first[1], first[2], 0, byte(len(msg)))
+					out = append(out, msg...)
+					hsErr, pn, complete := replayAgainst(ep, out, "sm")
+					if pn != nil {
+						t.Fatalf("%s PANICKED on a handshake message of type %d with a %d-byte body (%x) right behind the hello: %v\n%s", ep, typ, l, body, pn.Val, pn.Stack)
+					}
+					if hsErr == nil || complete {
+						t.Fatalf("%s completed a handshake from a hello followed by a stray type-%d message", ep, typ)
+					}
+					n++
+				}
+			}
+		}
+		R.Case(true, hx.HashKey("shortmsg", ep), "short_messages_after_hello", "endpoint:"+ep)
+	}
+	R.Subspace("handshake message types {0..25,67,254,255} x body lengths 0..6 x 3 fills right behind the hello, 8 endpoint kinds (quick: half of the grid)", n, hx.Thorough())
+}
+
 var lastWritten []byte // what the endpoint of the last replayAgainstW call put on the wire
 
 // ServerHello.server_version swept over 0x0000..0x0400 (quick: the neighbours of every defined version).
@@ -1272,14 +1330,20 @@ func TestC15_ServerHelloVersionSweep(t *testing.T) {
 		versions = []uint16{0x0000, 0x0001, 0x00ff, 0x0100, 0x0101, 0x0102, 0x0103, 0x01ff, 0x0200, 0x0201, 0x02ff, 0x0300, 0x0301, 0x0302, 0x0303, 0x0304, 0x0305, 0x03ff, 0x0400, 0x0401, 0xfeff, 0xffff}
 	}
 	var n int64
-	rec := record("tlsrsa")
+	rec := record("tlsrsa2f")
 	for _, v := range versions {
 		stream := append([]byte{}, rec.s2c...)
 		if stream[0] != 22 || stream[5] != 2 {
 			t.Fatalf("harness: recording does not start with a ServerHello")
 		}
 		stream[9], stream[10] = byte(v>>8), byte(v)
-		hsErr, pn, complete, _ := replayAgainstW("tlsclient_rsa", stream, fmt.Sprint("shv", v))
+		// (a server that plays along also stamps its further records with that version)
+		for off := 0; off+5 <= len(stream); off += 5 + (int(stream[off+3])<<8 | int(stream[off+4])) {
+			if off > 0 {
+				stream[off+1], stream[off+2] = byte(v>>8), byte(v)
+			}
+		}
+		hsErr, pn, complete, _ := replayAgainstW("tlsclient_rsa2f", stream, fmt.Sprint("shv", v))
 		if pn != nil {
 			t.Fatalf("TLS client PANICKED on a ServerHello with version %04x: %v\n%s", v, pn.Val, pn.Stack)
 		}
